@@ -18,7 +18,7 @@
 (*                  defines for the logged call   (=> conformance only)    *)
 (* The verdict predicates never consult Apply.                             *)
 (***************************************************************************)
-EXTENDS PropsT, Json, IOUtils, TLCExt
+EXTENDS PropsC, Json, IOUtils, TLCExt
 
 CONSTANTS Strict
 
@@ -57,6 +57,7 @@ ActionClauses(pre, c, out, post, fullpre, fullpost) ==
     << <<"C01_ReorderPermutes", C01_ReorderPermutes(pre, c, post)>>,
        <<"C02_RepointKeeps", C02_RepointKeeps(pre, c, out, post)>>,
        <<"C10_RefusalExact", C10_RefusalExact(pre, c, out)>>,
+       <<"C07_Independent", C07_Independent(pre, c, post)>>,
        <<"C14_RefusedUnchanged", C14_RefusedUnchanged(fullpre, out, fullpost)>> >>
 QueryClauses(pre, c, ret, info) ==
     << <<"C11_ExactlyOnce", C11_ExactlyOnce(pre, c, ret)>>,
@@ -72,9 +73,10 @@ InfoOf(r) == IF "info" \in DOMAIN r THEN r.info ELSE <<>>
 Report(tag, k, cl) ==
     \A j \in DOMAIN cl : IF cl[j][2] THEN TRUE ELSE PrintT(<<tag, k, cl[j][1]>>)
 
-StrictClauses(pre, c, out, post) ==
+StrictClauses(pre, c, out, post, ret) ==
     LET res == ApplyX(pre, c) IN
-    << <<"outcome", res.out = out>>, <<"state", res.s = post>> >>
+    << <<"outcome", res.out = out>>, <<"state", res.s = post>>,
+       <<"ret", (c.op = "clone" /\ out = "ok") => res.ret = ret>> >>
 
 CheckRecord(k) ==
     LET r == T[k] IN
@@ -88,13 +90,14 @@ CheckRecord(k) ==
          /\ Report("FAIL", k, ActionClauses(pre, c, r.out, post, FullPre(r), FullPost(r)))
          /\ (IF c.op \in {"hq", "hcheck"} THEN Report("FAIL", k, QueryClauses(pre, c, RetOf(r), InfoOf(r))) ELSE TRUE)
          /\ (IF c.op \in {"uniquify", "flatten"} THEN Report("FAIL", k, TransformClauses(pre, c, r.out, post)) ELSE TRUE)
+         /\ (IF c.op = "clone" THEN Report("FAIL", k, CloneClauses(pre, c, r.out, post, RetOf(r), FullPost(r))) ELSE TRUE)
          /\ (IF HasMirror(r)
              THEN Report("FAIL", k, << <<"C19_MirrorExact", C19_MirrorExact(post, MirrorAfter(r))>>,
                                        <<"C19_BeforeEffect", C19_BeforeEffect(r.ann)>>,
                                        <<"C19_Transparent", IF "agree" \in DOMAIN r THEN r.agree ELSE TRUE>> >>)
              ELSE TRUE)
          /\ (IF Strict /\ c.op \notin {"uniquify", "flatten"}
-             THEN Report("DRIFT", k, StrictClauses(pre, c, r.out, post)) ELSE TRUE)
+             THEN Report("DRIFT", k, StrictClauses(pre, c, r.out, post, RetOf(r))) ELSE TRUE)
 
 Init == l = 0
 Next == l < Len(T) /\ l' = l + 1 /\ CheckRecord(l')
